@@ -2,8 +2,13 @@
 
 Theorems (coq/theories/C15): the C-API multi/stream framing is read back exactly by the
 documented C loop; jrsonnet-deps' walk lists exactly the statically reachable files for every
-finite import graph; the CLI's writer selection table.  (Library search order rev(-J) ++
-JSONNET_PATH: theorem C07_cli_path_order.)
+finite import graph; the CLI's writer selection table.
+Source tie (translator/gens/cliopts.py -> Gen/GenCli.v, theorems C15_cli_* in PropertiesCli.v):
+ManifestOpts::manifest_format, TlaOpts::tla_opts, StdOpts::context_initializer and
+MiscOpts::import_resolver are translated from the working tree on every run and proved, for every
+command line, to bind each NAME to the documented meaning of its flavour (last binding wins), to
+search rev(-J) ++ JSONNET_PATH, and to select the writer of the hand model `select`.  A translate
+error or a failed C15_cli_* obligation triggers a targeted search (executable vs library API).
 Correspondence: generated configurations (ext/TLA flavours x value/code/file, 0-3 library paths
 + JSONNET_PATH with shadowing, every output mode, stack limit) executed three ways — the
 `jrsonnet` executable, the library API driven exactly as the model's configuration record says
@@ -16,6 +21,7 @@ import os
 import shutil
 import subprocess
 import tempfile
+from concurrent.futures import ThreadPoolExecutor
 
 from vlib import core
 
@@ -48,10 +54,28 @@ class Config:
     pass
 
 
-def gen_config(r, idx, root):
-    """one configuration: files on disk + CLI arguments + the model's view of it"""
+# the order of the four loops in tla_opts / context_initializer (theorems C15_cli_{tla,ext}_repeated_name_last_wins:
+# a NAME given in several flavours is bound by the LAST of these that mentions it)
+FLAVOURS = ["str", "str_file", "code", "code_file"]
+
+
+def effective(store):
+    """per flavour, the bindings that survive when a NAME is given in more than one flavour"""
+    out = {fl: {} for fl in FLAVOURS}
+    names = {n for fl in FLAVOURS for n in store[fl]}
+    for n in names:
+        fl = [f for f in FLAVOURS if n in store[f]][-1]
+        out[fl][n] = store[fl][n]
+    return out
+
+
+def gen_config(r, idx, root, targeted=False):
+    """one configuration: files on disk + CLI arguments + the model's view of it.
+    targeted: dense in what the translated option functions (Gen/GenCli.v) decide: file flavours, a NAME given in
+    two flavours, two or three -J directories all holding the library + JSONNET_PATH, default paddings"""
     c = Config()
-    c.dir = os.path.join(root, f"cfg{idx}")
+    c.targeted = targeted
+    c.dir = os.path.join(root, f"{'tcfg' if targeted else 'cfg'}{idx}")
     os.makedirs(c.dir)
     c.files = {}
 
@@ -63,16 +87,16 @@ def gen_config(r, idx, root):
         return p
 
     # library paths with shadowing
-    nlib = r.below(4)
+    nlib = 2 + r.below(2) if targeted else r.below(4)
     c.jflags = []
     for i in range(nlib):
         d = f"L{i}"
         os.makedirs(os.path.join(c.dir, d))
-        if r.chance(0.7):
+        if targeted or r.chance(0.7):
             put(f"{d}/lib.libsonnet", f'{{from: "L{i}"}}')
         c.jflags.append(os.path.join(c.dir, d))
     c.envpath = []
-    if r.chance(0.4):
+    if r.chance(0.9 if targeted else 0.4):
         os.makedirs(os.path.join(c.dir, "E0"))
         put("E0/lib.libsonnet", '{from: "E0"}')
         c.envpath.append(os.path.join(c.dir, "E0"))
@@ -87,9 +111,10 @@ def gen_config(r, idx, root):
     vals = ["v", "x y", "é", "", "1", "a=b"]
     codes = ["1 + 1", '"s" + "t"', "[1, 2]", "{k: 1}", "null", "std.length('abc')"]
     for kind, store, pref in (("ext", c.ext, "e"), ("tla", c.tla, "t")):
-        for j in range(r.below(4)):
+        for j in range(1 + r.below(3) if targeted else r.below(4)):
             name = f"{pref}{j}"
-            fl = r.choice(["str", "code", "str_file", "code_file"])
+            fl = r.choice(["str", "code", "str_file", "code_file", "str_file", "code_file"] if targeted
+                          else ["str", "code", "str_file", "code_file"])
             if fl == "str":
                 store[fl][name] = r.choice(vals)
             elif fl == "code":
@@ -98,12 +123,25 @@ def gen_config(r, idx, root):
                 store[fl][name] = put(f"data/{name}.txt", r.choice(vals) + "\n")
             else:
                 store[fl][name] = put(f"data/{name}.jsonnet", r.choice(codes))
-    if r.chance(0.08):
+        if targeted and r.chance(0.6):
+            # the same NAME once more in another flavour: C15_cli_*_repeated_name_last_wins says which one counts
+            name = f"{pref}0"
+            have = [fl for fl in FLAVOURS if name in store[fl]]
+            fl = r.choice([f for f in FLAVOURS if f not in have])
+            if fl == "str":
+                store[fl][name] = "dup"
+            elif fl == "code":
+                store[fl][name] = '"dup" + "code"'
+            elif fl == "str_file":
+                store[fl][name] = put(f"data/{name}.dup.txt", "dupfile\n")
+            else:
+                store[fl][name] = put(f"data/{name}.dup.jsonnet", "{dup: true}")
+    if not targeted and r.chance(0.08):
         c.tla["str"]["unknown_tla"] = "x"        # error: unknown parameter
-    enames = [n for fl in c.ext.values() for n in fl]
-    tnames = [n for fl in c.tla.values() for n in fl if n != "unknown_tla"]
+    enames = sorted({n for fl in c.ext.values() for n in fl})
+    tnames = sorted({n for fl in c.tla.values() for n in fl if n != "unknown_tla"})
     fields = [f"{n}: std.extVar({jstr(n)})" for n in enames] + [f"{n}: {n}" for n in tnames]
-    if has_lib and r.chance(0.8):
+    if has_lib and (targeted or r.chance(0.8)):
         fields.append('lib: (import "lib.libsonnet").from')
     if r.chance(0.1):
         fields.append('missing: std.extVar("nope")')
@@ -112,7 +150,8 @@ def gen_config(r, idx, root):
     obj = "{" + ", ".join(fields) + "}"
     # output mode decides the shape of the result
     mode = r.choice(["default", "default", "pad", "S", "y", "f-json", "f-yaml", "f-toml", "f-string", "f-ini", "f-xml",
-                     "m", "o", "y-f-json"])
+                     "m", "o", "y-f-json"] if not targeted else
+                    ["default", "y", "f-json", "f-yaml", "f-toml", "f-yaml", "f-toml", "y-f-json", "S", "f-string"])
     c.mode = mode
     c.format, c.string, c.ystream, c.padding = None, False, False, None
     if mode == "pad":
@@ -129,7 +168,7 @@ def gen_config(r, idx, root):
     elif mode.startswith("f-"):
         c.format = {"json": "FJson", "yaml": "FYaml", "toml": "FToml", "string": "FString", "ini": "FIni",
                     "xml": "FXml"}[mode[2:]]
-        if r.chance(0.5):
+        if r.chance(0.2 if targeted else 0.5):
             c.padding = r.choice([0, 1, 3, 4])
         if c.format == "FIni":
             body = f"{{main: {{a: 1, s: \"x\"}}, sections: {{sec: {obj} + {{arr: [1, 2]}}}}}}"
@@ -192,13 +231,14 @@ def lib_request(c, writer):
           "max_stack": c.max_stack or 512, "name": "<cmdline>"}
     if c.as_file:
         rq["embed"] = "entry_file"
+    ext, tla = effective(c.ext), effective(c.tla)
     for fl in ("str", "code", "str_file", "code_file"):
-        if c.ext[fl]:
-            rq["ext_" + fl] = c.ext[fl]
+        if ext[fl]:
+            rq["ext_" + fl] = ext[fl]
     tl = False
     for fl in ("str", "code", "str_file", "code_file"):
-        if c.tla[fl]:
-            rq["tla_" + fl] = c.tla[fl]
+        if tla[fl]:
+            rq["tla_" + fl] = tla[fl]
             tl = True
     if not tl:
         rq["tla_str"] = {}
@@ -227,7 +267,7 @@ def capi_script(c):
 
 
 def capi_ok(c):
-    return not (c.ext["str_file"] or c.ext["code_file"] or c.tla["str_file"] or c.tla["code_file"])
+    return not c.targeted and not (c.ext["str_file"] or c.ext["code_file"] or c.tla["str_file"] or c.tla["code_file"])
 
 
 def decode_frames(buf):
@@ -238,6 +278,88 @@ def decode_frames(buf):
         out.append(buf[i:j])
         i = j + 1
     return out
+
+
+def cli_vs_lib(run, cfgs, bindir, binary, failures):
+    """every configuration through the `jrsonnet` executable and through the library API driven by the SPEC's
+    reading of the command line; appends to failures"""
+    # ---- model: writer selection for every configuration (Coq `select`)
+    sel = core.coq_eval(C15_IMPORTS, [
+        f"select {'None' if c.format is None else '(Some ' + c.format + ')'} {'true' if c.string else 'false'} "
+        f"{'true' if c.ystream else 'false'} {'None' if c.padding is None else '(Some ' + str(c.padding) + ')'}"
+        for c in cfgs])
+    writers = [writer_spec(t) for t in sel]
+    # ---- the executable
+    from concurrent.futures import ThreadPoolExecutor
+    exe = os.path.join(bindir, "jrsonnet")
+
+    def run_cli(c):
+        env = dict(os.environ)
+        env.pop("JSONNET_PATH", None)
+        if c.envpath:
+            env["JSONNET_PATH"] = os.pathsep.join(c.envpath)
+        pr = subprocess.run([exe] + cli_args(c), cwd=c.dir, env=env, stdout=subprocess.PIPE, stderr=subprocess.PIPE,
+                            timeout=120)
+        return pr.returncode, pr.stdout.decode("utf-8", "replace"), pr.stderr.decode("utf-8", "replace")
+    with ThreadPoolExecutor(max_workers=core.NPROC) as ex:
+        cli = list(ex.map(run_cli, cfgs))
+    run.log("executable runs done")
+    # ---- the library, driven by the model's configuration record (one process per cwd)
+    lib = []
+    with ThreadPoolExecutor(max_workers=core.NPROC) as ex:
+        lib = list(ex.map(lambda cw: core.run_harness(binary, "eval", [lib_request(cw[0], cw[1])], cwd=cw[0].dir,
+                                                      shards=1)[0], zip(cfgs, writers)))
+    run.log("library runs done")
+    for c, w, (rc, so, se), lo in zip(cfgs, writers, cli, lib):
+        run.note_case(json.dumps(cli_args(c)), True)
+        run.count("mode:" + c.mode)
+        case = {"cli": ["jrsonnet"] + cli_args(c), "cwd_files": sorted(os.listdir(c.dir)), "writer": w,
+                "JSONNET_PATH": c.envpath, "library_request": lib_request(c, w)}
+
+        def fail(what, exp, got):
+            failures.append({"case": case, "summary": f"C15 {what}: jrsonnet {' '.join(cli_args(c))[:200]}",
+                             "expected": exp, "got": got})
+        if "panic" in lo or "abort" in lo:
+            fail("library API crashed", "value or error", lo)
+            continue
+        if "err" in lo or (isinstance(lo.get("ok"), dict) and "notobj" in lo["ok"]):
+            run.count("outcome:error")
+            if rc == 0:
+                fail("the library reports an error but the executable exits 0", lo, {"rc": rc, "stdout": so[:300]})
+            elif so != "" and c.mode != "m":
+                fail("error exit with output on stdout", "", so[:300])
+            elif se.strip() == "":
+                fail("error exit without a message on stderr", "message", se)
+            continue
+        run.count("outcome:value")
+        if rc != 0:
+            fail("the library computes a value but the executable fails", lo, {"rc": rc, "stderr": se[:400]})
+            continue
+        if c.mode == "m":
+            files = lo["ok"]
+            if not isinstance(files, list):
+                fail("-m on a non-object did not fail", "error", lo)
+                continue
+            listed = [ln for ln in so.split("\n") if ln]
+            exp_list = [os.path.join(c.dir, "out", k) for k, _t, _nl in files]
+            if listed != exp_list:
+                fail("-m lists different files", exp_list, listed)
+            for k, text, nl in files:
+                pth = os.path.join(c.dir, "out", k)
+                got = open(pth, encoding="utf-8").read() if os.path.exists(pth) else None
+                if got != text + ("\n" if nl else ""):
+                    fail(f"-m file {k} differs from the library's manifestation", text, got)
+        elif c.mode == "o":
+            pth = os.path.join(c.dir, "out.json")
+            got = open(pth, encoding="utf-8").read() if os.path.exists(pth) else None
+            if got != lo["ok"] + "\n" or so != "":
+                fail("-o file differs from the library's manifestation", lo["ok"], {"file": got, "stdout": so})
+        else:
+            exp = lo["ok"] + "\n" if lo["ok"] != "" else ""
+            if so != exp:
+                fail("stdout differs from the library's manifestation", exp[:600], so[:600])
+            elif len(run.samples) < 3 and c.mode not in ("default",):
+                run.samples.append({"cli": cli_args(c), "stdout": so[:200]})
 
 
 def check(run, terrs):
@@ -259,83 +381,9 @@ def check(run, terrs):
         r = run.rng.fork("cfg")
         n = 4000 if run.tier == "thorough" else 260
         cfgs = [gen_config(r, i, root) for i in range(n)]
-        # ---- model: writer selection for every configuration (Coq `select`)
-        sel = core.coq_eval(C15_IMPORTS, [
-            f"select {'None' if c.format is None else '(Some ' + c.format + ')'} {'true' if c.string else 'false'} "
-            f"{'true' if c.ystream else 'false'} {'None' if c.padding is None else '(Some ' + str(c.padding) + ')'}"
-            for c in cfgs])
-        writers = [writer_spec(t) for t in sel]
-        # ---- the executable
-        from concurrent.futures import ThreadPoolExecutor
-        exe = os.path.join(bindir, "jrsonnet")
-
-        def run_cli(c):
-            env = dict(os.environ)
-            env.pop("JSONNET_PATH", None)
-            if c.envpath:
-                env["JSONNET_PATH"] = os.pathsep.join(c.envpath)
-            pr = subprocess.run([exe] + cli_args(c), cwd=c.dir, env=env, stdout=subprocess.PIPE, stderr=subprocess.PIPE,
-                                timeout=120)
-            return pr.returncode, pr.stdout.decode("utf-8", "replace"), pr.stderr.decode("utf-8", "replace")
-        with ThreadPoolExecutor(max_workers=core.NPROC) as ex:
-            cli = list(ex.map(run_cli, cfgs))
-        run.log("executable runs done")
-        # ---- the library, driven by the model's configuration record (one process per cwd)
-        lib = []
-        with ThreadPoolExecutor(max_workers=core.NPROC) as ex:
-            lib = list(ex.map(lambda cw: core.run_harness(binary, "eval", [lib_request(cw[0], cw[1])], cwd=cw[0].dir,
-                                                          shards=1)[0], zip(cfgs, writers)))
-        run.log("library runs done")
-        for c, w, (rc, so, se), lo in zip(cfgs, writers, cli, lib):
-            run.note_case(json.dumps(cli_args(c)), True)
-            run.count("mode:" + c.mode)
-            case = {"cli": ["jrsonnet"] + cli_args(c), "cwd_files": sorted(os.listdir(c.dir)), "writer": w,
-                    "JSONNET_PATH": c.envpath, "library_request": lib_request(c, w)}
-
-            def fail(what, exp, got):
-                failures.append({"case": case, "summary": f"C15 {what}: jrsonnet {' '.join(cli_args(c))[:200]}",
-                                 "expected": exp, "got": got})
-            if "panic" in lo or "abort" in lo:
-                fail("library API crashed", "value or error", lo)
-                continue
-            if "err" in lo or (isinstance(lo.get("ok"), dict) and "notobj" in lo["ok"]):
-                run.count("outcome:error")
-                if rc == 0:
-                    fail("the library reports an error but the executable exits 0", lo, {"rc": rc, "stdout": so[:300]})
-                elif so != "" and c.mode != "m":
-                    fail("error exit with output on stdout", "", so[:300])
-                elif se.strip() == "":
-                    fail("error exit without a message on stderr", "message", se)
-                continue
-            run.count("outcome:value")
-            if rc != 0:
-                fail("the library computes a value but the executable fails", lo, {"rc": rc, "stderr": se[:400]})
-                continue
-            if c.mode == "m":
-                files = lo["ok"]
-                if not isinstance(files, list):
-                    fail("-m on a non-object did not fail", "error", lo)
-                    continue
-                listed = [ln for ln in so.split("\n") if ln]
-                exp_list = [os.path.join(c.dir, "out", k) for k, _t, _nl in files]
-                if listed != exp_list:
-                    fail("-m lists different files", exp_list, listed)
-                for k, text, nl in files:
-                    pth = os.path.join(c.dir, "out", k)
-                    got = open(pth, encoding="utf-8").read() if os.path.exists(pth) else None
-                    if got != text + ("\n" if nl else ""):
-                        fail(f"-m file {k} differs from the library's manifestation", text, got)
-            elif c.mode == "o":
-                pth = os.path.join(c.dir, "out.json")
-                got = open(pth, encoding="utf-8").read() if os.path.exists(pth) else None
-                if got != lo["ok"] + "\n" or so != "":
-                    fail("-o file differs from the library's manifestation", lo["ok"], {"file": got, "stdout": so})
-            else:
-                exp = lo["ok"] + "\n" if lo["ok"] != "" else ""
-                if so != exp:
-                    fail("stdout differs from the library's manifestation", exp[:600], so[:600])
-                elif len(run.samples) < 3 and c.mode not in ("default",):
-                    run.samples.append({"cli": cli_args(c), "stdout": so[:200]})
+        rt = run.rng.fork("cfg-targeted")
+        cfgs += [gen_config(rt, i, root, targeted=True) for i in range(400 if run.tier == "thorough" else 40)]
+        cli_vs_lib(run, cfgs, bindir, binary, failures)
         # ---- the C API: same program and settings, text + error flag
         script, plan = [], []
         for c in cfgs:
@@ -428,7 +476,32 @@ def check(run, terrs):
                    "jrharness (library API), harness/c_driver.c, gcc", "path order theorem imported from C07"]
     run.assumptions = ["the model starts at the parsed option structs; file-flavoured variables are not offered by the C API "
                        "and are compared only between executable and library"]
-    return core.conclude(run, proofs_ok, detail, failures, diffs, level="proof", rule=RULE)
+    return core.conclude(run, proofs_ok, detail, failures, diffs,
+                         search=(lambda: search(run, bindir, binary)) if run.tier == "quick" else None,
+                         level="proof", rule=RULE)
+
+
+SRC_OBLIGATIONS = ("C15.C15_cli_", "translator.GenCli")
+
+
+def search(run, bindir, binary):
+    """an obligation broke.  When it is one of the source-tie obligations (the functions translated from
+    crates/jrsonnet-cli no longer equal the documented behaviour, or could not be translated), probe the real
+    executable against the library API on configurations dense in what those functions decide: file flavours, NAMEs
+    given twice, several -J directories + JSONNET_PATH all holding the library, default paddings of every format."""
+    src = [n for n, ok, _ in run.obligations if not ok and n.startswith(SRC_OBLIGATIONS)]
+    if not src:
+        return []
+    run.log(f"search: source-tie obligation(s) broke ({', '.join(src)[:200]}): targeted option combinations")
+    failures = []
+    root = tempfile.mkdtemp(prefix="c15s-", dir=core.CACHE)
+    try:
+        r = run.rng.fork("cfg-search")
+        cfgs = [gen_config(r, i, root, targeted=True) for i in range(400)]
+        cli_vs_lib(run, cfgs, bindir, binary, failures)
+    finally:
+        shutil.rmtree(root, ignore_errors=True)
+    return failures
 
 
 def deps_check(run, bindir, root):
